@@ -4,6 +4,7 @@ import (
 	"fmt"
 	"go/ast"
 	"go/constant"
+	"go/token"
 	"go/types"
 	"sort"
 	"strings"
@@ -18,6 +19,7 @@ func init() {
 		Run:      runC09,
 		Explanation: "Decides structural necessary conditions of crash/fault recovery of the lifecyclers: (R1) the tokens file is replaced atomically: all writes go to a freshly truncated '<path>.tmp', the only operation creating the final path is os.Rename(tmp, path), reached only when marshal, write and close all succeeded; no other file-writing call exists in package ring; a failed load never aborts start-up; " +
 			"(R2) when the own entry is missing at a heartbeat the lifecycler re-registers with its remembered tokens and state, and when the entry exists the heartbeat keeps the tokens recorded in the ring (it never overwrites them with the in-memory copy); (R3) on restart with an existing entry the local tokens/state/registration time are taken from the ring entry. " +
+			"(R4) every request to the token generator asks for target−len(held) tokens and appends the result to the held list, so tokens recorded in the ring or the tokens file survive a restart or a top-up unchanged; (R5) Lifecycler.changeState sets the local state once, to the requested state, before the store write and never rolls it back, so a rejected write is re-published by a later heartbeat. " +
 			"NOT decided: behaviour under a crash between any two writes (crash points), fault windows, reaching ACTIVE with the full token count. Registration-time handling is decided under C08.R3.",
 	}
 }
@@ -26,6 +28,8 @@ func runC09(c *core.Ctx) {
 	c.Rule("R1", "tokens file: write tmp (truncated) then rename, rename only after successful write+close; no other writer; load errors tolerated", 5)
 	c.Rule("R2", "heartbeat: entry missing => re-register with remembered tokens/state; entry present => keep the ring's tokens", 4)
 	c.Rule("R3", "restart with existing entry adopts tokens and state from the ring entry", 2)
+	c.Rule("R4", "token top-up: request (target − held) tokens and append them to the held list", 5)
+	c.Rule("R5", "a requested state change is remembered even when the store write fails", 1)
 	pkg := c.Prog.Pkg("ring")
 	if pkg == nil {
 		c.Miss("R1", "pkg=ring", "not loaded")
@@ -162,6 +166,8 @@ func runC09(c *core.Ctx) {
 	c09Heartbeat(c)
 	// ---- R3
 	c09Restart(c)
+	c09TopUpAs(c, "R4")
+	c09ChangeState(c, "R5")
 }
 
 func c09Heartbeat(c *core.Ctx) { c09HeartbeatAs(c, "R2") }
@@ -287,4 +293,95 @@ func c09Restart(c *core.Ctx) {
 			}
 		}
 	}
+}
+
+// c09TopUpAs: wherever a lifecycler asks its token generator for tokens, it asks for exactly the
+// difference between a target count and the tokens it already holds (len(T)), and the generated
+// tokens are appended to that same list T — inherited tokens are never replaced or dropped by a
+// top-up (shared by C09.R4 and C08.R9).
+func c09TopUpAs(c *core.Ctx, R string) {
+	pkg := c.Prog.Pkg("ring")
+	for _, top := range an.Funcs(pkg) {
+		for _, call := range top.Calls(true) {
+			f := call.Func()
+			if f == nil || f.Name() != "GenerateTokens" {
+				continue
+			}
+			sig, _ := f.Type().(*types.Signature)
+			if sig == nil || sig.Recv() == nil || !types.IsInterface(sig.Recv().Type()) {
+				continue // concrete generators called directly are not lifecycler top-ups
+			}
+			fn := call.In
+			key := "topup:func=" + fn.Name
+			c.Analysed(fn.String())
+			// (a) requested count = X - len(T)
+			cnt := an.Unparen(call.Expr.Args[0])
+			for depth := 0; depth < 4; depth++ {
+				if _, isBin := cnt.(*ast.BinaryExpr); isBin {
+					break
+				}
+				obj := fn.ObjOf(cnt)
+				if obj == nil {
+					break
+				}
+				e, ok := fn.SingleDefExpr(obj)
+				if !ok {
+					break
+				}
+				cnt = an.Unparen(e)
+			}
+			var held types.Object
+			if b, ok := cnt.(*ast.BinaryExpr); ok && b.Op == token.SUB {
+				if lc, ok := an.Unparen(b.Y).(*ast.CallExpr); ok && an.ObjIs(an.Callee(fn.Info(), lc), "", "len") && len(lc.Args) == 1 {
+					held = fn.ObjOf(lc.Args[0])
+				}
+			}
+			if held == nil {
+				c.Viol(R, key, call.Expr.Pos(), "the number of tokens requested from the generator is "+fn.Canon(call.Expr.Args[0])+", not ‹target count› − len(‹tokens already held›): tokens recorded in the ring or the tokens file would be over-provisioned or replaced")
+				continue
+			}
+			// (b) the generated tokens are appended to the held list
+			var gen types.Object
+			if as, ok := stmtOf(fn, call.Expr).(*ast.AssignStmt); ok && len(as.Lhs) == 1 && len(as.Rhs) == 1 && an.Unparen(as.Rhs[0]) == call.Expr {
+				gen = fn.ObjOf(as.Lhs[0])
+			}
+			appended := false
+			fn.InspectShallow(func(n ast.Node) bool {
+				as, ok := n.(*ast.AssignStmt)
+				if !ok || len(as.Lhs) != 1 || len(as.Rhs) != 1 || fn.ObjOf(as.Lhs[0]) != held {
+					return true
+				}
+				ap, ok := an.Unparen(as.Rhs[0]).(*ast.CallExpr)
+				if !ok || !an.ObjIs(an.Callee(fn.Info(), ap), "", "append") || len(ap.Args) != 2 || !ap.Ellipsis.IsValid() {
+					return true
+				}
+				if fn.ObjOf(ap.Args[0]) == held && gen != nil && fn.ObjOf(ap.Args[1]) == gen && fn.Graph().NodeBefore(call.Expr, as) {
+					appended = true
+				}
+				return true
+			})
+			c.Check(appended, R, key, call.Expr.Pos(), fmt.Sprintf("requests %s tokens and appends them to the held list %s (inherited tokens kept as they are)", fn.Canon(call.Expr.Args[0]), held.Name()), 1)
+		}
+	}
+}
+
+// c09ChangeState: the classic lifecycler remembers the requested state even when the store rejects
+// the write, so that a later heartbeat re-publishes it: changeState sets the local state exactly once,
+// to the requested state, before the store update, and never afterwards.
+func c09ChangeState(c *core.Ctx, R string) {
+	pkg := c.Prog.Pkg("ring")
+	fn := an.FindFunc(pkg, "Lifecycler.changeState")
+	if fn == nil {
+		c.Miss(R, "func=Lifecycler.changeState", "not found")
+		return
+	}
+	c.Analysed(fn.String())
+	sets := fn.CallsTo(true, "ring", "(*Lifecycler).setState")
+	upd := fn.CallsTo(true, "ring", "(*Lifecycler).updateConsul")
+	ok := len(sets) == 1 && len(upd) == 1 && sets[0].In == fn && upd[0].In == fn && fn.Canon(sets[0].Expr.Args[0]) == "p1" && fn.Graph().NodeBefore(sets[0].Expr, upd[0].Expr)
+	args := []string{}
+	for _, s := range sets {
+		args = append(args, s.In.Canon(s.Expr.Args[0]))
+	}
+	c.Check(ok, R, "func=Lifecycler.changeState:remember", fn.Pos(), fmt.Sprintf("local state set once, to the requested state, before the store write and never rolled back (setState args: %v; updateConsul calls: %d) — a rejected write is retried by the next heartbeat from the remembered state", args, len(upd)), 1)
 }
